@@ -55,6 +55,7 @@ type Verifier struct {
 	siteOrdByKey map[string]int
 	siteCount    map[string]int
 	negRefs      int
+	caseTag      string
 	pathSeq      map[string]int
 	curCon       *Contract
 	maxPaths     int
@@ -92,19 +93,87 @@ func (v *Verifier) obligeNamed(fr *Frame, st *State, suffix string, pos token.Po
 }
 
 func (v *Verifier) addObl(name, kind, desc string, p token.Position, st *State, goal *Term) {
-	seq := v.pathSeq[name]
-	v.pathSeq[name] = seq + 1
-	o := &Obligation{Name: name, Path: seq, Func: v.curFn, Kind: kind, Desc: desc, Pos: p, Goal: goal, ctx: v.eng.C}
-	if goal.IsTrue() {
-		o.Trivial = true
-	} else {
-		o.Assume = append([]*Term{}, st.pc...)
+	// Split the goal: implications move to the assumptions, conjunctions become separate
+	// obligations, top-level universal quantifiers are skolemised (Bool variables by cases).
+	type piece struct {
+		suffix string
+		extra  []*Term
+		goal   *Term
 	}
-	if v.curCon != nil {
-		o.Timeout = v.curCon.Timeout
-		o.Solvers = v.curCon.Solvers
+	var pieces []piece
+	c := v.eng.C
+	var split func(suffix string, extra []*Term, g *Term, depth int)
+	split = func(suffix string, extra []*Term, g *Term, depth int) {
+		switch {
+		case g.Op == "=>" && depth < 12:
+			split(suffix, append(append([]*Term{}, extra...), g.Args[0]), g.Args[1], depth+1)
+		case g.Op == "forall" && depth < 12:
+			var boolVars, others []*Term
+			for _, b := range g.BVars {
+				if b.Sort == BoolSort {
+					boolVars = append(boolVars, b)
+				} else {
+					others = append(others, b)
+				}
+			}
+			m := map[*Term]*Term{}
+			for _, b := range others {
+				nm := b.Name
+				if i := strings.Index(nm, "?"); i >= 0 {
+					nm = nm[:i]
+				}
+				m[b] = c.Fresh("sk$"+nm, b.Sort)
+			}
+			if len(boolVars) > 3 {
+				for _, b := range boolVars {
+					m[b] = c.Fresh("sk$"+b.Name, b.Sort)
+				}
+				boolVars = nil
+			}
+			n := 1 << len(boolVars)
+			for k := 0; k < n; k++ {
+				sfx := suffix
+				for i, b := range boolVars {
+					bit := (k >> i) & 1
+					m[b] = c.Bool(bit == 1)
+					nm := b.Name
+					if j := strings.Index(nm, "?"); j >= 0 {
+						nm = nm[:j]
+					}
+					sfx += fmt.Sprintf("[%s=%d]", nm, bit)
+				}
+				split(sfx, extra, c.Subst(g.Args[0], m), depth+1)
+			}
+		case g.Op == "and" && depth < 12 && len(g.Args) <= 8 && suffix != "":
+			// only split conjunctions below a case split, to keep obligation counts stable
+			pieces = append(pieces, piece{suffix, extra, g})
+		default:
+			pieces = append(pieces, piece{suffix, extra, g})
+		}
 	}
-	v.obls = append(v.obls, o)
+	split("", nil, goal, 0)
+	for _, pc := range pieces {
+		nm := name + v.caseTag + pc.suffix
+		seq := v.pathSeq[nm]
+		v.pathSeq[nm] = seq + 1
+		o := &Obligation{Name: nm, Path: seq, Func: v.curFn, Kind: kind, Desc: desc, Pos: p, Goal: pc.goal, ctx: v.eng.C}
+		trivial := pc.goal.IsTrue()
+		for _, e := range pc.extra {
+			if e.IsFalse() {
+				trivial = true
+			}
+		}
+		if trivial {
+			o.Trivial = true
+		} else {
+			o.Assume = append(append([]*Term{}, st.pc...), pc.extra...)
+		}
+		if v.curCon != nil {
+			o.Timeout = v.curCon.Timeout
+			o.Solvers = v.curCon.Solvers
+		}
+		v.obls = append(v.obls, o)
+	}
 }
 
 // ---------- statements
@@ -259,8 +328,13 @@ func (v *Verifier) execStmt(fr *Frame, st *State, s ast.Stmt) []*State {
 
 func (v *Verifier) declare(fr *Frame, st *State, obj *types.Var, val Val) {
 	sh := v.eng.shapeOf(obj.Type())
-	cell := v.eng.newCell(obj.Name(), sh)
-	fr.vars[obj] = cell
+	// one cell per declared variable and frame: several paths (and unrolled iterations)
+	// executing the same declaration share the key; states hold the values.
+	cell := fr.vars[obj]
+	if cell == nil {
+		cell = v.eng.newCell(obj.Name(), sh)
+		fr.vars[obj] = cell
+	}
 	if fr.boxed[obj] {
 		av, ok := val.(ArrVal)
 		if !ok {
